@@ -327,3 +327,7 @@ REGISTRY["C20"]["partial_clauses"] = [c for c in REGISTRY["C20"]["partial_clause
 for _p in ("C08",):
     REGISTRY[_p]["theorems"] += T("Proofs.Bridge.Tables", "BLDFM.Bridge", ["call_table_single_vertical_profiles_else_config_met_get_step_met_index__get__z0___is_not_None",
                                                                            "call_table_single_vertical_profiles_if_config_met_get_step_met_index__get__z0___is_not_None"], "bridge")
+REGISTRY["C19"]["theorems"] += T("Proofs.C19b", "BLDFM.C19", ["km_crosswind_integrated_integral", "km_crosswind_integrated_unit_mass", "km_crosswind_gaussian_unit_mass"])
+REGISTRY["C19"]["partial_clauses"][0] = ("the continuous crosswind-integrated footprint has unit mass over the upwind half line and the crosswind Gaussian has unit mass "
+    "(km_crosswind_integrated_unit_mass, km_crosswind_gaussian_unit_mass); that the GRID SUM tends to the regularised incomplete-gamma mass of the finite extent as the grid is "
+    "refined is a numeric oracle only (scipy.special.gammaincc); Mathlib has no incomplete gamma function")
